@@ -33,7 +33,7 @@ pub fn child(f: CmdFn) {
     // Run on a thread with a fixed, generous but finite stack, so that unbounded recursion is
     // observed as an abort of this child (Rust's guard page turns it into SIGABRT).
     let t = std::thread::Builder::new()
-        .stack_size(64 << 20)
+        .stack_size(16 << 20)
         .spawn(move || {
             let stdin = std::io::stdin();
             let stdout = std::io::stdout();
